@@ -4,6 +4,7 @@ import (
 	"bytes"
 	"fmt"
 	"path"
+	"runtime/debug"
 	"sort"
 
 	"github.com/akalin/gopar/par1"
@@ -23,6 +24,7 @@ type c10Case struct {
 	Sizes   []int    `json:"sizes,omitempty"`
 	Names   []string `json:"names,omitempty"`
 	Volumes int      `json:"volumes,omitempty"`
+	Twin    int      `json:"twin,omitempty"` // history in the process: first a Create that differs from this one in ONE respect: 1 other names (same contents), 2 other contents (same names and lengths), 3 another volume count, 4 one more file, 5 the same inputs listed in reverse
 	// read direction
 	Status  []int         `json:"status,omitempty"`  // per entry status bits (bit0 saved, bit1 checked)
 	Comment int           `json:"comment,omitempty"` // 0 none, 1 ASCII, 2 binary, 3 1 KiB
@@ -54,6 +56,44 @@ func c10WriteDir(c *c10Case, r *core.Rec) {
 		fs.Put(p, d)
 		paths = append(paths, p)
 		datas = append(datas, d)
+	}
+	if c.Twin != 0 {
+		// the near twin runs first, in the same process, on a filesystem of its own, with garbage collection off until
+		// the judged Create is done: whatever is remembered under a key that forgets the one differing aspect comes back
+		oldGC := debug.SetGCPercent(-1)
+		defer debug.SetGCPercent(oldGC)
+		tfs := envfs.New()
+		var tpaths []string
+		for i, n := range c.Sizes {
+			name, seedOff := c.Names[i], 0
+			if c.Twin == 1 {
+				name = "twin-" + name
+			}
+			if c.Twin == 2 {
+				seedOff = 500
+			}
+			tp := path.Join("/d", name)
+			tfs.Put(tp, scen.Content("uniq", r.Seed, i+seedOff, n, 4))
+			tpaths = append(tpaths, tp)
+		}
+		tv := c.Volumes
+		switch c.Twin {
+		case 3:
+			tv = c.Volumes + 1
+		case 4:
+			tfs.Put("/d/one-more", scen.Content("uniq", r.Seed, 77, 9, 4))
+			tpaths = append(tpaths, "/d/one-more")
+		case 5:
+			for i, j := 0, len(tpaths)-1; i < j; i, j = i+1, j-1 {
+				tpaths[i], tpaths[j] = tpaths[j], tpaths[i]
+			}
+		}
+		var terr error
+		if pi := core.Catch(func() { terr = par1.VerifCreate(tfs, "/d/s.par", tpaths, par1.CreateOptions{NumParityFiles: tv}) }); pi != nil || terr != nil {
+			r.Violatef("create-failed:twin", "the near-twin Create failed: %v %v", pi, terr)
+			return
+		}
+		r.AddTransitions(1)
 	}
 	var err error
 	if pi := core.Catch(func() { err = par1.VerifCreate(fs, "/d/s.par", paths, par1.CreateOptions{NumParityFiles: c.Volumes}) }); pi != nil {
@@ -355,6 +395,12 @@ func c10Gen(g *core.Gen) {
 	}
 	for _, v := range []int{98, 99} {
 		g.Emit(&c10Case{Dir: "write", Sizes: []int{5, 8, 2}, Names: c10NameSets[0][:3], Volumes: v})
+		if v <= 3 {
+			for tw := 1; tw <= 5; tw++ {
+				g.Emit(&c10Case{Dir: "write", Sizes: []int{5, 8, 2}, Names: c10NameSets[0][:3], Volumes: v, Twin: tw})
+				g.Emit(&c10Case{Dir: "write", Sizes: []int{17000, 16384, 3}, Names: c10NameSets[2][:3], Volumes: v, Twin: tw})
+			}
+		}
 	}
 	// reader direction: many listed files of which only a few are in the parity set (file counts around 99, 255, 256, 300)
 	for _, filler := range []int{90, 96, 97, 98, 150, 250, 251, 252, 253, 254, 255, 300} {
